@@ -78,6 +78,7 @@ type Thread struct {
 	Quiescing bool
 	OthersStepped bool // some other thread took a visible step since this thread last slept
 	HasSlept bool
+	IdleSleeps int // consecutive sleeps during which nothing else moved
 	Sleeps   int   // contended sleeps so far (spin cut)
 	Slept    *Term // accumulated sleep time (ns)
 	// happens-before vector clock (race mode)
@@ -142,7 +143,9 @@ type schedNode struct {
 
 type State struct {
 	Gen     int
+	Node    int32 // index in the explored state graph
 	PC      *Term
+	SPC     *Term // schedule constraints (s_k = choice), kept apart from the data path condition
 	Heap    map[ObjID]*Object
 	NextObj ObjID
 	Globals map[*ssa.Global]ObjID
